@@ -20,21 +20,21 @@ IR_RUNS = {
     "C02": {"quick": [("MC", "mirror", 1), ("MC", "mirror_add", 2), ("MC", "conn", 2), ("SUITE", "tests", 0)],
             "thorough": [("MC", "mirror", 2), ("MC", "mirror_add", 3), ("MC", "conn", 3), ("SUITE", "tests", 0)]},
     "C14": {"quick": [("MC", "conn", 2), ("MC", "mirror", 1), ("MC", "mirror_add", 2), ("MC", "naming", 2),
-                      ("MC", "naming_edif", 2)],
+                      ("MC", "naming_edif", 2), ("MC", "naming_two", 1)],
             "thorough": [("MC", "conn", 3), ("MC", "mirror", 2), ("MC", "mirror_add", 3), ("MC", "body", 3), ("MC", "contain", 4),
-                         ("MC", "naming", 3), ("MC", "naming_edif", 3), ("MC", "naming_mix", 3)]},
+                         ("MC", "naming", 3), ("MC", "naming_edif", 3), ("MC", "naming_mix", 3), ("MC", "naming_two", 2)]},
     "C19": {"quick": [("MC", "conn", 2), ("MC", "mirror", 1), ("MC", "mirror_add", 2), ("MC", "contain", 2),
-                      ("MC", "naming", 1)],
+                      ("MC", "naming", 1), ("MC", "body", 2)],
             "thorough": [("MC", "conn", 3), ("MC", "mirror", 2), ("MC", "mirror_add", 3), ("MC", "contain", 3),
-                         ("MC", "body", 3), ("MC", "naming", 2), ("MC", "naming_edif", 2)]},
-    "C10": {"quick": [("MC", "naming", 2), ("MC", "naming_edif", 2), ("MC", "naming_mix", 2)],
-            "thorough": [("MC", "naming", 3), ("MC", "naming_edif", 3), ("MC", "naming_mix", 3)]},
+                         ("MC", "body", 3), ("MC", "naming", 2), ("MC", "naming_edif", 2), ("MC", "naming_mix", 2)]},
+    "C10": {"quick": [("MC", "naming", 2), ("MC", "naming_edif", 2), ("MC", "naming_mix", 2), ("MC", "naming_two", 1)],
+            "thorough": [("MC", "naming", 3), ("MC", "naming_edif", 3), ("MC", "naming_mix", 3), ("MC", "naming_two", 2)]},
 }
 IR_LISTENERS = {"C19": "A"}
 IR_RUNS.update({
-    "C11": {"quick": [("MC", "hier11", 2), ("MC", "hier11", 10, 30), ("MC", "hier_edit", 1), ("MC", "hier_edit", 8, 20),
+    "C11": {"quick": [("MC", "hier_ghost", 1), ("MC", "hier11", 2), ("MC", "hier11", 10, 30), ("MC", "hier_edit", 1), ("MC", "hier_edit", 8, 20),
                       ("MC", "hier_walk", 12, 40)],
-            "thorough": [("MC", "hier11", 4), ("MC", "hier11", 12, 600), ("MC", "hier_edit", 2),
+            "thorough": [("MC", "hier_ghost", 1), ("MC", "hier11", 4), ("MC", "hier11", 12, 600), ("MC", "hier_edit", 2),
                          ("MC", "hier_edit", 10, 400), ("MC", "hier_walk", 16, 1500)]},
     "C07": {"quick": [("MC", "clone", 2), ("MC", "clone_top", 1), ("MC", "clone_edit", 0)],
             "thorough": [("MC", "clone", 5), ("MC", "clone", 10, 60), ("MC", "clone_top", 3), ("MC", "clone_edit", 1)]},
@@ -44,8 +44,8 @@ IR_RUNS.update({
             "thorough": [("MC", "vlog_rt", 3), ("MC", "vlog_rt", 12, 300), ("MC", "vlog_decl", 0), ("FILES", "vlog_rt", 30000)]},
     "C15": {"quick": [("MC", "c15_edif", 0), ("MC", "c15_vlog", 0), ("MC", "c15_eblif", 0)],
             "thorough": [("MC", "c15_edif", 0), ("MC", "c15_vlog", 0), ("MC", "c15_eblif", 0)]},
-    "C16": {"quick": [("MC", "c16_edif", 2), ("MC", "c16_edif3", 2), ("MC", "c16_vlog", 1), ("MC", "c16_eblif", 2)],
-            "thorough": [("MC", "c16_edif", 3), ("MC", "c16_vlog", 2), ("MC", "c16_eblif", 3), ("MC", "c16_edif", 12, 300)]},
+    "C16": {"quick": [("MC", "c16_edif_arr", 0), ("MC", "c16_edif", 2), ("MC", "c16_edif3", 2), ("MC", "c16_vlog", 1), ("MC", "c16_eblif", 2)],
+            "thorough": [("MC", "c16_edif_arr", 0), ("MC", "c16_edif", 3), ("MC", "c16_vlog", 2), ("MC", "c16_eblif", 3), ("MC", "c16_edif", 12, 300)]},
     "C18": {"quick": [("MC", "eblif_read", 3), ("MC", "eblif_rt", 2), ("MC", "eblif_latch", 2), ("MC", "eblif_latch_rt", 3),
                       ("MC", "eblif_read", 10, 14), ("FILES", "eblif_file", 9000), ("FILES", "eblif_rt", 9000)],
             "thorough": [("MC", "eblif_read", 4), ("MC", "eblif_rt", 3), ("MC", "eblif_latch", 4), ("MC", "eblif_latch_rt", 4),
@@ -56,13 +56,13 @@ IR_RUNS.update({
     "C03": {"quick": [("MC", "edif_rt", 3), ("MC", "edif_rt2", 2), ("MC", "edif_rt", 10, 40), ("MC", "edif_rt_br", 1), ("MC", "edif_reexport", 0), ("FILES", "edif_rt", 4000)],
             "thorough": [("MC", "edif_rt", 4), ("MC", "edif_rt1", 4), ("MC", "edif_rt", 12, 1500), ("MC", "edif_rt_br", 2), ("MC", "edif_reexport", 0), ("FILES", "edif_rt", 40000)]},
     "C20": {"quick": [("MC", "compare", 0)], "thorough": [("MC", "compare", 0)]},
-    "C13": {"quick": [("MC", "query", 1)], "thorough": [("MC", "query", 30)]},
+    "C13": {"quick": [("MC", "query", 1), ("MC", "query_edif", 0)], "thorough": [("MC", "query", 30), ("MC", "query_edif", 0)]},
     "C08": {"quick": [("MC", "xf", 3), ("MC", "xf_port", 4), ("MC", "xf", 12, 40), ("MC", "xf_late", 12, 40)],
             "thorough": [("MC", "xf", 5), ("MC", "xf_port", 11), ("MC", "xf", 14, 1500), ("MC", "xf_late_port", 4), ("MC", "xf_late", 14, 600)]},
     "C09": {"quick": [("MC", "xf", 2), ("MC", "xf_port", 6), ("MC", "xf", 12, 30)],
             "thorough": [("MC", "xf", 5), ("MC", "xf_port", 11), ("MC", "xf", 14, 1500), ("MC", "xf_late", 14, 600)]},
-    "C12": {"quick": [("MC", "hier12", 3), ("MC", "hier12", 12, 60)],
-            "thorough": [("MC", "hier12", 5), ("MC", "hier12", 14, 1000)]},
+    "C12": {"quick": [("MC", "hier12", 3), ("MC", "hier12", 12, 60), ("MC", "hier12_pos", 12, 60)],
+            "thorough": [("MC", "hier12", 5), ("MC", "hier12", 14, 1000), ("MC", "hier12_pos", 4), ("MC", "hier12_pos", 14, 1000)]},
 })
 IR_RULE = {
     "C15": "for one design per format the valid rendering and EVERY single corruption of it (truncation before each token, "
@@ -229,7 +229,9 @@ def _detail(sig, clause, rec, header):
             longs = [n for n in names if n.startswith("@") and int(n[1:].split(":")[0]) >= 253]
             if not rec.get("reader_accepts", True) and longs:
                 cause = "long-bus-cable-name: identifier plus _<bit>_ suffix exceeds the EDIF length limit"
-            elif rec.get("reader_accepts", True) and any(n[:1] in "$&_" for n in names):
+            elif rec.get("reader_accepts", True) and any(
+                    not ({"@": "a", "#": "1"}.get(n[:1], n[:1]) or "a").isalnum() for n in names):
+                # a first character that is neither letter nor digit is written as "_": the identifier starts "&_"
                 cause = "bus cable whose identifier is &-escaped comes back as single-bit cables"
             elif rec.get("reader_accepts", True) and any(n.endswith("]") and "[" in n for n in names):
                 cause = "scalar cable named like a bus bit comes back as a bit of an array cable"
